@@ -16,7 +16,7 @@ from concurrent.futures import FIRST_COMPLETED, ProcessPoolExecutor, wait
 
 VERIF = os.path.dirname(os.path.dirname(os.path.dirname(os.path.abspath(__file__))))
 SEED_MUL = 1_000_003
-RUN_WALL_CAP = 120  # seconds per simulated run before the worker is declared hung
+RUN_WALL_CAP = 240  # seconds per simulated run before the worker is declared hung
 
 
 def _setup_repo_path():
@@ -101,7 +101,7 @@ def _run_chunk(pid, tier, base_seed, indices, known_keys, want_digests):
     agg = {
         "runs": 0, "steps": 0, "probes": Counter(), "faults": Counter(), "known_hits": Counter(),
         "sigs": set(), "violations": [], "harness_errors": [], "digests": {}, "real_calls": Counter(),
-        "samples": [], "pid": os.getpid(),
+        "samples": [], "pid": os.getpid(), "slowest": [0.0, None],
     }
     def one(seed):
         plan = world.gen_plan(seed, tier)
@@ -112,11 +112,15 @@ def _run_chunk(pid, tier, base_seed, indices, known_keys, want_digests):
 
     for i in indices:
         seed = base_seed * SEED_MUL + i
+        t_run = time.time()
         try:
             d = run_isolated(lambda: one(seed), RUN_WALL_CAP)
         except ChildDied as e:
             agg["harness_errors"].append({"seed": seed, "error": str(e)})
             continue
+        dt = time.time() - t_run
+        if dt > agg["slowest"][0]:
+            agg["slowest"] = [round(dt, 2), seed]
         agg["runs"] += 1
         agg["steps"] += d["n_steps"]
         agg["probes"].update(d["probes"])
@@ -244,7 +248,8 @@ def run_check(pid, tier, base_seed, n_runs=None, budget_s=None, workers=None):
     chunk = max(1, min(tiercfg.get("chunk", 20), (n_runs + workers - 1) // workers))
     chunks = [list(range(s, min(n_runs, s + chunk))) for s in range(0, n_runs, chunk)]
     agg = {"runs": 0, "steps": 0, "probes": Counter(), "faults": Counter(), "known_hits": Counter(),
-           "sigs": set(), "violations": [], "harness_errors": [], "digests": {}, "real_calls": Counter(), "samples": []}
+           "sigs": set(), "violations": [], "harness_errors": [], "digests": {}, "real_calls": Counter(), "samples": [],
+           "slowest": [0.0, None]}
     deadline = t0 + budget_s
     ctx = multiprocessing.get_context("fork")
     timed_out = False
@@ -270,6 +275,8 @@ def run_check(pid, tier, base_seed, n_runs=None, budget_s=None, workers=None):
                     for k in ("probes", "faults", "known_hits", "real_calls"):
                         agg[k].update(a[k])
                     agg["sigs"].update(a["sigs"])
+                    if a["slowest"][0] > agg["slowest"][0]:
+                        agg["slowest"] = a["slowest"]
                     agg["violations"].extend(a["violations"])
                     agg["harness_errors"].extend(a["harness_errors"])
                     for i, d in a["digests"].items():
@@ -363,6 +370,8 @@ def run_check(pid, tier, base_seed, n_runs=None, budget_s=None, workers=None):
             "runs_requested": n_runs,
             "stopped_by_deadline": timed_out,
             "runs_per_hour": int(agg["runs"] / max(wall, 1e-9) * 3600),
+            "slowest_run": {"wall_s": agg["slowest"][0], "seed": agg["slowest"][1], "watchdog_s": RUN_WALL_CAP},
+            "isolation": "every simulated run executes in its own forked child of a warmed-up worker process",
             "simulated_time": "none (no clock seam exists in the code under test; progress is counted in logical steps)",
             "faults_fired": dict(sorted(agg["faults"].items())),
             "probes": dict(sorted(agg["probes"].items())),
@@ -388,7 +397,7 @@ def run_check(pid, tier, base_seed, n_runs=None, budget_s=None, workers=None):
     print(f"[{pid}] runs={agg['runs']} steps={agg['steps']} distinct_nontrivial={len(agg['sigs'])} "
           f"faults={sum(agg['faults'].values())} known_hits={sum(agg['known_hits'].values())} "
           f"violations={len(reported)} determinism={det_result['second_process']}/{det_result['fresh_interpreter_hashseed1']} "
-          f"wall={wall:.1f}s exit={exit_code}")
+          f"slowest_run={agg['slowest'][0]}s(seed {agg['slowest'][1]}) wall={wall:.1f}s exit={exit_code}")
     return exit_code
 
 
@@ -424,6 +433,6 @@ def main(argv=None):
         print(json.dumps(plan, indent=1)[:6000])
         for e in r.events:
             print(e)
-        print(json.dumps({k: v for k, v in r.to_dict().items() if k != "events"}, indent=1, default=str))
+        print(json.dumps({k: v for k, v in vars(r).items() if k != "events"}, indent=1, default=str))
         return 0
     return run_check(a.pid, a.tier, a.seed, a.runs, a.budget, a.workers)
